@@ -570,6 +570,11 @@ def run_check(prop: Property, tier: str, replay: Optional[str] = None) -> int:
   if 'leanchecker' in proof:
     coverage['leanchecker'] = proof['leanchecker']
   coverage.update(prop.extra_coverage(ctx))
+  if 'exhaustive' in coverage and not isinstance(coverage['exhaustive'], bool):
+    note = coverage.pop('exhaustive')          # the schema wants a boolean here
+    if note:
+      coverage['exhaustive_note'] = note
+      coverage['exhaustive'] = True
   # evidence under evidence/ always describes a run against /repo itself; runs against another
   # checkout (VERIF_REPO, mutant validation) write to evidence_scratch/ instead
   ev_dir = 'evidence' if os.path.realpath(REPO) == '/repo' else 'evidence_scratch'
